@@ -323,7 +323,7 @@ def fill_history(ck, sh, mm, gname, seq):
     M = sh.mininec
     T = psistub.AtomTable()
     pc.install(M, T)
-    F = dict(f1=29.98, f2=21.3)
+    F = dict(f1=29.98, f2=21.3, f3=12.0)          # f3: the 2 mm wires drop below 1e-4 wavelength (kernel class changes)
     x = np.array([1.3, -0.8, 2.5])
 
     def run(m, steps, I):
@@ -490,7 +490,7 @@ def main(args):
     rnames = ['attach-2-of-3', 'attach-3-of-4', 'skin+ins', 'report-options'] if ck.tier == 'thorough' else ['attach-2-of-3', 'skin+ins', 'report-options']
     parts += [('run_to_run', ([n],)) for n in rnames]
     parts += [('far_history', ('G14', 'one')), ('far_history', ('G7', 'radials'))]
-    fseqs = [('c', 'c'), ('c', 'f2', 'c'), ('c', 'n', 'f2', 'c', 'n')]
+    fseqs = [('c', 'c'), ('c', 'f2', 'c'), ('c', 'n', 'f2', 'c', 'n'), ('c', 'f3', 'c')]
     fgeo = ('G8', 'G2') if ck.tier == 'quick' else ('G8', 'G2', 'G9', 'G16', 'G11')
     parts += [('fill_history', (g, sq)) for g in fgeo for sq in fseqs]
     from .common import run_parallel
